@@ -289,6 +289,19 @@ def apply_op(ctx, DataSet, pool, d, op):
                         ctx.check("B.move.attributes", attrs(joined) == A0, site, "attrs", "operand %s, joined %s" % (A0, attrs(joined)))
                     if all(joined is not o for o in out):
                         new_entries.append(Entry(joined, scaled=e.scaled))
+                # the accumulator idiom: a fresh EMPTY (unscaled) data set in front of / behind the pieces -- empty sets contribute nothing, so samples, labels and
+                # the scaling attributes are those of the join of the pieces (missed seed C18_a: attributes taken from the first list element, empty or not)
+                if not empty:
+                    for where in ("front", "back"):
+                        acc = DataSet(tuple([np.array([]), np.array([])]))
+                        seq_ = [acc] + list(out) if where == "front" else list(out) + [acc]
+                        j2 = None
+                        with ctx.guard("B.move.multiset", *raise_site(site, "raises-with-empty-accumulator")):
+                            with quiet():
+                                j2 = DataSet.list_concatenate(seq_)
+                        if j2 is not None:
+                            ctx.check("B.move.multiset", multiset(pairs(j2, d)) == multiset(P0), site, "pairs-with-empty-accumulator-" + where, "joined pieces != operand")
+                            ctx.check("B.move.attributes", attrs(j2) == A0, site, "attrs-with-empty-accumulator-" + where, "operand %s, joined %s" % (A0, attrs(j2)))
     elif kind == "remove_samples":
         idx = list(dict.fromkeys(min(int(f * n), n - 1) for f in op["idx"])) if n else []
         removed = None
